@@ -80,7 +80,10 @@ public:
       buffer = (byte*)new char[size + 1];
     }
     else if(!buffer)
+    {
+      bufferEnd = bufferStart;
       return;
+    }
     Memory::copy(buffer, data, size);
     bufferStart = buffer;
     bufferEnd = buffer + size;
